@@ -28,6 +28,11 @@ def do_replay(mod, path):
     try:
         mod.replay(case)
     except Violation as v:
+        known = KnownFindings(mod.PID)
+        if known.match(v.sig):
+            known.report()
+            print(f'[{mod.PID}] replay {path}: reproduces a listed open finding ({v.sig})')
+            return EXIT_OK
         print(f'  signature: {v.sig}')
         print('  ' + v.detail[:3000].replace('\n', '\n  '))
         print(f'VIOLATION property={mod.PID} replay={path}')
